@@ -231,4 +231,21 @@ def addBlock (env : Env L) (s : Node L) (b : Block) : Node L × Option Err :=
     | (s1, some e) => (s1, some e)
     | (s1, none) => bodyStep env s1 b
 
+/-! ### the Merkle root function (pkg/crypto/hash/merkle_tree.go CalcMerkleRoot), over an abstract
+two-to-one hash `h2`; used only to state why the duplicate check is needed. -/
+
+/-- one level: pairs are hashed together, the last element of an odd level with itself -/
+def merkleLevel (h2 : Nat → Nat → Nat) : List Nat → List Nat
+  | [] => []
+  | [a] => [h2 a a]
+  | a :: b :: rest => h2 a b :: merkleLevel h2 rest
+
+def calcMerkle (h2 : Nat → Nat → Nat) : Nat → List Nat → Nat
+  | _, [] => 0
+  | _, [a] => a
+  | 0, _ => 0
+  | fuel + 1, l => calcMerkle h2 fuel (merkleLevel h2 l)
+
+def merkleRoot (h2 : Nat → Nat → Nat) (l : List Nat) : Nat := calcMerkle h2 l.length l
+
 end NeoModel.AddBlock
